@@ -297,6 +297,9 @@ type Client struct {
 	ConnID string // from emitter/me/
 	Dead   bool
 	Log    []string
+	// KeepBetween leaves the publishes that arrive between a SUBSCRIBE and its SUBACK in the inbox
+	// (in place) instead of handing them to the caller only.
+	KeepBetween bool
 }
 
 // Attach creates a transport pair and hands the server end to the broker, optionally wrapped.
@@ -426,12 +429,80 @@ func (c *Client) Subscribe(topic string) (byte, []Pub, error) {
 		return 0, nil, err
 	}
 	between := append([]Pub(nil), c.inbox[before:pos]...)
-	c.inbox = append(c.inbox[:before], c.inbox[pos:]...)
+	if !c.KeepBetween {
+		c.inbox = append(c.inbox[:before], c.inbox[pos:]...)
+	}
 	rc := cp.(*packets.SubackPacket).ReturnCodes
 	if len(rc) != 1 {
 		return 0, between, fmt.Errorf("SUBACK with %d return codes for one topic", len(rc))
 	}
 	return rc[0], between, nil
+}
+
+// SubscribeMany sends one SUBSCRIBE with several topics and awaits its SUBACK.
+func (c *Client) SubscribeMany(topics []string) ([]byte, error) {
+	id := c.id()
+	if err := c.Send(mqttref.Subscribe(id, topics...)); err != nil {
+		return nil, err
+	}
+	cp, _, err := c.await(func(p packets.ControlPacket) bool {
+		s, ok := p.(*packets.SubackPacket)
+		return ok && s.MessageID == id
+	})
+	if err != nil {
+		return nil, err
+	}
+	return cp.(*packets.SubackPacket).ReturnCodes, nil
+}
+
+// UnsubscribeMany sends one UNSUBSCRIBE with several topics and awaits its UNSUBACK.
+func (c *Client) UnsubscribeMany(topics []string) error {
+	id := c.id()
+	if err := c.Send(mqttref.Unsubscribe(id, topics...)); err != nil {
+		return err
+	}
+	_, _, err := c.await(func(p packets.ControlPacket) bool {
+		s, ok := p.(*packets.UnsubackPacket)
+		return ok && s.MessageID == id
+	})
+	return err
+}
+
+// PresenceBarrier is a logical "every earlier presence notification has been delivered" barrier.
+// Notifications go through one FIFO queue of capacity Q served by one goroutine that finishes
+// publishing item k (a synchronous write into every watcher's transport) before it dequeues item
+// k+1, and Notify blocks while the queue is full. The helper makes Q+2 further transitions on
+// channels nobody watches, each acknowledged (so each Notify call has returned): at least two of
+// them have then been dequeued, hence every notification queued before them has been published.
+// No waiting on a watcher and no wall clock is involved.
+func (b *Broker) PresenceBarrier(helper *Client, key string, round int) error {
+	q := b.Svc.VerifPresenceQueueCap() + 2
+	n := (q + 1) / 2
+	topics := make([]string, 0, n)
+	for i := 0; i < n; i++ {
+		topics = append(topics, fmt.Sprintf("%s/zzbarrier/r%d/n%d/", key, round, i))
+	}
+	for len(topics) > 0 {
+		k := len(topics)
+		if k > 40 {
+			k = 40
+		}
+		rc, err := helper.SubscribeMany(topics[:k])
+		if err != nil {
+			return err
+		}
+		for _, c := range rc {
+			if c == 0x80 {
+				return fmt.Errorf("barrier subscribe refused")
+			}
+		}
+		if err := helper.UnsubscribeMany(topics[:k]); err != nil {
+			return err
+		}
+		topics = topics[k:]
+	}
+	helper.Take()
+	return nil
 }
 
 // Unsubscribe sends UNSUBSCRIBE and awaits UNSUBACK.
